@@ -694,6 +694,10 @@ class Folder(object):
                 return best[2]
             if base in EXC_NAMES:
                 return ExtInstance(d, args, kwargs)
+            if base == 'bool' and len(args) == 1:
+                if isinstance(args[0], Opaque):
+                    return Opaque('bool')
+                return self.truth(args[0], n, env)
             if base in SAFE_BUILTINS:
                 if any(isinstance(a, Opaque) for a in args):
                     return Opaque(base)
